@@ -716,3 +716,8 @@ def run(rep, program: Program, tier: str) -> None:
     rep.isolate(rule_parity, rep, program)
     rep.isolate(c08.rule_r4, rep, program, prop=PROP, rule="R6")
     rep.isolate(rule_lazy_members, rep, program)
+    # an operation that changes one of its operands (or an array shared with a cached transpose / inverse) makes every later
+    # expression over that operand disagree with dense linear algebra (shared with C19-R1)
+    from . import c19
+
+    rep.isolate(c19.rule_r1, rep, program, prop=PROP, rule="R10")
